@@ -153,6 +153,26 @@ def run_plan(drv, case, wd_ms):
     return resp
 
 
+def judge_cold(ctx, case, _resp):
+    """the same plan in a FRESH driver process with the sequential pass made after the threads: the first use of every lazily
+    initialised global (decimal contexts, regular expressions, zone tables) happens under contention"""
+    drv = Driver("release", timeout=120)
+    try:
+        drv.start()
+        r = drv.safe({"op": "model", "xml": M.XML}, timeout=60)
+        if "handle" not in r:
+            raise Inconclusive("C20 cold start: model request failed: %r" % (r,))
+        req = {"op": "threads", "handle": r["handle"], "calls": case["calls"], "threads": case["threads"], "barrier": True,
+               "skew": case["skew"], "watchdog_ms": watchdog_ms(ctx, rerun=True), "cold": True}
+        resp = drv.safe(req, timeout=watchdog_ms(ctx, rerun=True) / 1000.0 + 60)
+    finally:
+        drv.stop()
+    f = judge_response(ctx, case, resp, where="cold")
+    if f == "hang":
+        raise Inconclusive("C20 cold start: watchdog expired once; not decidable as a deadlock from one run")
+    return f
+
+
 def same_step_sharing(case):
     """max over steps of the number of threads that evaluate the same invocable at that step index."""
     names = [c[0] for c in case["calls"]]
@@ -513,6 +533,7 @@ def setup(ctx):
                        "inputs avoid now(), today() and time-of-day values in named zones (their meaning depends on the current date)"]
     ctx.p_corner = ctx.register(Part("corner", None, lambda case: [], judge_corner))
     ctx.p_stress = ctx.register(Part("stress", gen_plan, lambda case: [], judge_plan))
+    ctx.p_cold = ctx.register(Part("cold", gen_plan, lambda case: [], judge_cold))
     ctx.p_tsan = ctx.register(Part("tsan", gen_plan, lambda case: [], judge_tsan_replay))
 
 
@@ -522,6 +543,7 @@ def run(ctx):
         ctx.enumerate(ctx.p_corner, corner_plans(ctx), batch=1, name="every invocable x {2,16} threads in lock step; nested x leaf pairs",
                       exhaustive=True)
         ctx.forall(ctx.p_stress, ctx.scale(400, 24000), batch=1)
+        ctx.forall(ctx.p_cold, ctx.scale(60, 3000), batch=1)
     if ctx.thorough() and not ctx.stop():
         run_tsan(ctx)
     elif not ctx.thorough():
